@@ -20,6 +20,7 @@ type Env struct {
 	scopePos token.Pos       // position for resolving Go locals by name (own function only)
 	scopePkg *types.Package
 	depth    int
+	qdepth   int // number of enclosing quantifier binders (canonical bound-variable names)
 	results  []Term
 	roles    map[string]string
 	self     *FuncInfo
@@ -150,6 +151,27 @@ func (fv *FV) resolveType(env *Env, text string) types.Type {
 	if strings.HasPrefix(text, "imap[") && strings.HasSuffix(text, "]") { // imap[V]: Int → V ghost map
 		el := fv.resolveType(env, text[5:len(text)-1])
 		return &specType{sort: arr(sInt, fv.sortOf(el)), elem: el}
+	}
+	if strings.HasPrefix(text, "gmap[") {
+		// gmap[K]V: ghost total map
+		d, k := 0, -1
+		for i := 4; i < len(text); i++ {
+			if text[i] == '[' {
+				d++
+			}
+			if text[i] == ']' {
+				d--
+				if d == 0 {
+					k = i
+					break
+				}
+			}
+		}
+		if k > 0 {
+			kt := fv.resolveType(env, text[5:k])
+			vt := fv.resolveType(env, text[k+1:])
+			return &specType{sort: arr(fv.sortOf(kt), fv.sortOf(vt)), elem: vt, key: kt}
+		}
 	}
 	if strings.HasPrefix(text, "bag[") && strings.HasSuffix(text, "]") {
 		el := fv.resolveType(env, text[4:len(text)-1])
@@ -402,13 +424,13 @@ func (fv *FV) arith(op string, l, r Term, goSemantics bool, st *State, pos token
 			return Term{S: app(op, l.S, r.S), Sort: sInt, T: rt}
 		case "/":
 			// Go truncated division
-			if !r.Lit && st != nil {
+			if st != nil && !l.Lit {
 				q, _ := fv.divMod(st, l.S, r.S)
 				return Term{S: q, Sort: sInt, T: rt}
 			}
 			return Term{S: fv.truncDiv(l.S, r.S), Sort: sInt, T: rt}
 		case "%":
-			if !r.Lit && st != nil {
+			if st != nil && !l.Lit {
 				_, m := fv.divMod(st, l.S, r.S)
 				return Term{S: m, Sort: sInt, T: rt}
 			}
@@ -555,7 +577,7 @@ func (fv *FV) fieldTerm(st *State, v Term, name string) Term {
 			fv.sfail("no field %s in %s", name, p.Elem())
 		}
 		key, _ := fv.fieldComp(named, f)
-		return Term{S: sel(fv.heapGet(st, key), v.S), Sort: fv.sortOf(f.Type()), T: f.Type()}
+		return fv.shorten(Term{S: sel(fv.heapGet(st, key), v.S), Sort: fv.sortOf(f.Type()), T: f.Type()}, f.Name())
 	}
 	if named, sty := structOf(t); sty != nil {
 		f := findField(sty, name)
@@ -568,6 +590,26 @@ func (fv *FV) fieldTerm(st *State, v Term, name string) Term {
 	}
 	fv.sfail("field %s of non-struct %s", name, t)
 	return Term{}
+}
+
+// shorten gives a long slice-valued term a name (a global definition), so that contracts which mention q.data
+// dozens of times stay readable for the solvers' pattern matching.
+func (fv *FV) shorten(t Term, hint string) Term {
+	if t.Sort != sSlice || len(t.S) < 24 || strings.Contains(t.S, "?") {
+		return t
+	}
+	if fv.termNames == nil {
+		fv.termNames = map[string]string{}
+	}
+	if c, ok := fv.termNames[t.S]; ok {
+		t.S = c
+		return t
+	}
+	c := fv.fresh(hint, t.Sort)
+	fv.axioms = append(fv.axioms, eq(c, t.S))
+	fv.termNames[t.S] = c
+	t.S = c
+	return t
 }
 
 func (fv *FV) ghostField(named *types.Named, name string) string {
@@ -837,11 +879,8 @@ func (fv *FV) specCall(env *Env, c *SCall) Term {
 		s := fv.spec(&on, c.Args[0])
 		et := elemType(s.T)
 		key, _ := fv.elemComp(et)
-		fv.nfresh++
-		x := fmt.Sprintf("x?%d", fv.nfresh)
-		now := sel(sel(fv.heapGet(env.st, key), "(sbase "+s.S+")"), x)
-		was := sel(sel(fv.heapGet(env.old, key), "(sbase "+s.S+")"), x)
-		return Term{S: fmt.Sprintf("(forall ((%s Int)) (! (=> (or (< %s (soff %s)) (>= %s (+ (soff %s) (slen %s)))) (= %s %s)) :pattern (%s)))", x, x, s.S, x, s.S, s.S, now, was, now), Sort: sBool}
+		lo, hi := "(soff "+s.S+")", "(+ (soff "+s.S+") (slen "+s.S+"))"
+		return Term{S: fv.outsideUnchanged(sel(fv.heapGet(env.st, key), "(sbase "+s.S+")"), sel(fv.heapGet(env.old, key), "(sbase "+s.S+")"), lo, hi, env.qdepth), Sort: sBool}
 	case "old_arrays_unchanged":
 		// every backing array (of the element type of the argument) that was allocated in the old state is unchanged
 		need(1)
@@ -854,8 +893,7 @@ func (fv *FV) specCall(env *Env, c *SCall) Term {
 			fv.sfail("old_arrays_unchanged() of a non-slice")
 		}
 		key, _ := fv.elemComp(et)
-		fv.nfresh++
-		b := fmt.Sprintf("b?%d", fv.nfresh)
+		b := fmt.Sprintf("b?u%d", env.qdepth+1)
 		now := sel(fv.heapGet(env.st, key), b)
 		return Term{S: fmt.Sprintf("(forall ((%s Int)) (! (=> (select %s %s) (= %s %s)) :pattern (%s)))", b, fv.allocTerm(env.old), b, now, sel(fv.heapGet(env.old, key), b), now), Sort: sBool}
 	case "ord":
@@ -887,6 +925,10 @@ func (fv *FV) specCall(env *Env, c *SCall) Term {
 		need(2)
 		s := fv.spec(env, c.Args[0])
 		k := fv.spec(env, c.Args[1])
+		if s.Sort == sSlice && !strings.Contains(k.S, "?") && !strings.Contains(s.S, "?") {
+			fv.omarkDecl()
+			fv.axioms = append(fv.axioms, app("omark", app("+", "(soff "+s.S+")", k.S)))
+		}
 		return fv.indexTerm(env.st, s, k)
 	case "bag":
 		a := args()
@@ -929,6 +971,44 @@ func (fv *FV) specCall(env *Env, c *SCall) Term {
 			return Term{S: app("bv2nat", a[0].S), Sort: sInt, T: types.Typ[types.Int]}
 		}
 		return a[0]
+	case "ediv":
+		need(2)
+		a := args()
+		if isIntLit(a[1].S) && a[1].S != "0" && !strings.Contains(a[0].S, "?") {
+			// ground Euclidean division by a literal: name quotient and remainder and state the defining facts
+			// (the solvers do not derive 2*(x div 2) <= x < 2*(x div 2)+2 eagerly enough for the heap proofs)
+			key := "ediv\x00" + a[0].S + "\x00" + a[1].S
+			if fv.divCache == nil {
+				fv.divCache = map[string][2]string{}
+			}
+			c, ok := fv.divCache[key]
+			if !ok {
+				q := fv.fresh("ediv", sInt)
+				r := fv.fresh("emod", sInt)
+				fv.axioms = append(fv.axioms, and(eq(q, app("div", a[0].S, a[1].S)), eq(a[0].S, app("+", app("*", a[1].S, q), r)), app("<=", "0", r), app("<", r, a[1].S)))
+				c = [2]string{q, r}
+				fv.divCache[key] = c
+			}
+			return Term{S: c[0], Sort: sInt, T: types.Typ[types.Int]}
+		}
+		return Term{S: app("div", a[0].S, a[1].S), Sort: sInt, T: types.Typ[types.Int]}
+	case "emod":
+		need(2)
+		a := args()
+		return Term{S: app("mod", a[0].S, a[1].S), Sort: sInt, T: types.Typ[types.Int]}
+	case "upd":
+		need(3)
+		a := args()
+		is, es := arraySorts(a[0].Sort)
+		if is == "" {
+			fv.sfail("upd on a non-map")
+		}
+		k, _ := fv.coerce(a[1], Term{Sort: is})
+		v, _ := fv.coerce(a[2], Term{Sort: es})
+		if k.Sort != is || v.Sort != es {
+			fv.sfail("upd: sorts %s/%s do not match map %s", k.Sort, v.Sort, a[0].Sort)
+		}
+		return Term{S: sto(a[0].S, k.S, v.S), Sort: a[0].Sort, T: a[0].T}
 	case "elemptr":
 		need(2)
 		a := args()
@@ -960,7 +1040,7 @@ func (fv *FV) specCall(env *Env, c *SCall) Term {
 
 // expandEnv: macro expansion environment — parameters bound to argument terms; heap = current env state.
 func (fv *FV) expandEnv(env *Env, sf *SpecFunc, a []Term) *Env {
-	n := &Env{fv: fv, st: env.st, old: env.old, names: map[string]Term{}, pc: sf.Pkg, depth: env.depth + 1, results: nil, scopePkg: nil}
+	n := &Env{fv: fv, st: env.st, old: env.old, names: map[string]Term{}, pc: sf.Pkg, depth: env.depth + 1, qdepth: env.qdepth, results: nil, scopePkg: nil}
 	for i, p := range sf.Params {
 		at := a[i]
 		if at.Lit && at.Sort == sInt && (p.Type == "byte") {
@@ -1022,10 +1102,12 @@ func (fv *FV) bindQuant(env *Env, q *SQuant) (*Env, string) {
 	for _, v := range q.Vars {
 		t := fv.resolveType(env, v.Type)
 		s := fv.sortOf(t)
-		fv.nfresh++
-		name := fmt.Sprintf("%s?%d", v.Name, fv.nfresh)
+		// canonical names (variable + nesting depth): alpha-equivalent formulas become syntactically identical,
+		// which the solvers need to recognise `old(P) ==> P`-style invariants whose P is quantified
+		name := fmt.Sprintf("%s?q%d", v.Name, e2.qdepth+1)
 		binders = append(binders, fmt.Sprintf("(%s %s)", name, s))
 		e2 = e2.with(v.Name, Term{S: name, Sort: s, T: t})
+		e2.qdepth++
 	}
 	return e2, strings.Join(binders, " ")
 }
@@ -1082,8 +1164,7 @@ func (fv *FV) unchanged(env *Env, a SExpr) string {
 		s := fv.spec(&on, c.Args[0])
 		et := elemType(s.T)
 		key, _ := fv.elemComp(et)
-		fv.nfresh++
-		k := fmt.Sprintf("k?%d", fv.nfresh)
+		k := fmt.Sprintf("k?u%d", env.qdepth+1)
 		now := sel(sel(fv.heapGet(env.st, key), "(sbase "+s.S+")"), app("+", "(soff "+s.S+")", k))
 		was := sel(sel(fv.heapGet(env.old, key), "(sbase "+s.S+")"), app("+", "(soff "+s.S+")", k))
 		return fmt.Sprintf("(forall ((%s Int)) (! (=> (and (<= 0 %s) (< %s (slen %s))) (= %s %s)) :pattern (%s)))", k, k, k, s.S, now, was, now)
@@ -1154,6 +1235,25 @@ func (fv *FV) yieldArgType(f Term) types.Type {
 	return nil
 }
 
+// outsideUnchanged: every element of array `now` outside the window [lo, hi) equals that of `was`.
+// The quantifier is triggered by a marker predicate omark(x) (axiomatised to be true everywhere) instead of by
+// the array read: a trigger on the read fires on every access of the array and made unrelated queries
+// 100x slower; with the marker the fact is instantiated only for indices somebody asks about — the skolem index
+// of a frame goal (the goal carries omark itself) or an index named by backing(s, k).
+func (fv *FV) outsideUnchanged(now, was, lo, hi string, qdepth int) string {
+	fv.omarkDecl()
+	x := fmt.Sprintf("x?u%d", qdepth+1)
+	return fmt.Sprintf("(forall ((%s Int)) (! (=> (and (omark %s) (or (< %s %s) (>= %s %s))) (= (select %s %s) (select %s %s))) :pattern ((omark %s))))", x, x, x, lo, x, hi, now, x, was, x, x)
+}
+
+func (fv *FV) omarkDecl() {
+	if !fv.declared["omark"] {
+		fv.declared["omark"] = true
+		fv.decls = append(fv.decls, "(declare-fun omark (Int) Bool)")
+		fv.axioms = append(fv.axioms, "(forall ((x Int)) (! (omark x) :pattern ((omark x))))")
+	}
+}
+
 // ---------------------------------------------------------------------------
 // multisets: bag(s, lo, hi) as (Array Elem Int) with axioms (trusted, listed in evidence)
 
@@ -1170,19 +1270,8 @@ func (fv *FV) bagTerm(st *State, s Term, lo, hi string) Term {
 		fv.declared[name] = true
 		as := arr(sInt, es)
 		fv.decls = append(fv.decls, fmt.Sprintf("(declare-fun %s (%s Int Int) %s)", name, as, bs))
-		fv.axioms = append(fv.axioms,
-			// empty range
-			fmt.Sprintf("(forall ((a %s) (lo Int) (hi Int) (x %s)) (! (=> (<= hi lo) (= (select (%s a lo hi) x) 0)) :pattern ((select (%s a lo hi) x))))", as, es, name, name),
-			// store inside the range
-			fmt.Sprintf("(forall ((a %s) (i Int) (v %s) (lo Int) (hi Int)) (! (=> (and (<= lo i) (< i hi)) (= (%s (store a i v) lo hi) (let ((b (%s a lo hi))) (let ((b1 (store b (select a i) (- (select b (select a i)) 1)))) (store b1 v (+ (select b1 v) 1)))))) :pattern ((%s (store a i v) lo hi))))", as, es, name, name, name),
-			// store outside the range
-			fmt.Sprintf("(forall ((a %s) (i Int) (v %s) (lo Int) (hi Int)) (! (=> (or (< i lo) (>= i hi)) (= (%s (store a i v) lo hi) (%s a lo hi))) :pattern ((%s (store a i v) lo hi))))", as, es, name, name, name),
-			// extend on the right
-			fmt.Sprintf("(forall ((a %s) (lo Int) (hi Int)) (! (=> (< lo hi) (= (%s a lo hi) (let ((b (%s a lo (- hi 1)))) (store b (select a (- hi 1)) (+ (select b (select a (- hi 1))) 1))))) :pattern ((%s a lo hi))))", as, name, name, name),
-			// counts are non-negative
-			fmt.Sprintf("(forall ((a %s) (lo Int) (hi Int) (x %s)) (! (>= (select (%s a lo hi) x) 0) :pattern ((select (%s a lo hi) x))))", as, es, name, name),
-		)
-		fv.assumptions["multiset lemmas for bag(): empty range, point update inside/outside the range, extension by one element, non-negative counts (trusted axioms)"] = true
+		fv.assumptions["multisets: bag() is an uninterpreted function; the engine emits ground instances of four multiset lemmas at the statements that need them (element store = point update of the bag of the slice's window; exchange of two elements keeps it; append adds the appended elements; copy transfers the bag; a range and the same range without its last element differ by that element). Quantified multiset axioms over arrays made unrelated queries diverge and are not used."] = true
+		fv.bagSorts[es] = true
 	}
 	a := sel(fv.heapGet(st, key), "(sbase "+s.S+")")
 	off := "(soff " + s.S + ")"
